@@ -1033,13 +1033,15 @@ func (p *Protocol) handleMessage(msg Message) error {
 	// Don't hand the message to the handler if the protocol failed or was
 	// stopped (e.g. by an error from another loop) while the state transition
 	// was in flight
-	if p.errored.Load() {
-		return ErrProtocolShuttingDown
-	}
 	select {
 	case <-p.stopChan:
 		return ErrProtocolShuttingDown
 	default:
+	}
+	// This must be the last check before the handler is invoked: the flag is
+	// set before an error becomes visible to the consumer
+	if p.errored.Load() {
+		return ErrProtocolShuttingDown
 	}
 
 	// Call handler function
